@@ -61,7 +61,7 @@ def run(res, tier, seed):
         raise vlib.ToolError("driver lost cases")
     res.traces += n
     # ---- T
-    n_rand = 30000 if tier == "thorough" else 3000
+    n_rand = 150000 if tier == "thorough" else 3000
     tpath = os.path.join(wd, "rt.trace.ndjson")
     vlib.run_driver("drive_wire", ["record-roundtrip", "--trace", tpath, "--n", str(n_rand), "--seed", str(seed)],
                     stdout_path=os.path.join(wd, "rt.out"), timeout=3000)
